@@ -165,7 +165,9 @@ impl Ctx {
     fn add(&mut self, mut f: Finding) {
         f.gen = self.gen;
         // keep a few findings per (family, stage, oracle, gen) so that different kinds of disagreement are all reported
-        let same = self.findings.iter().filter(|g| g.family == f.family && g.stage == f.stage && g.oracle == f.oracle && g.gen == f.gen).count();
+        let kind = |x: &str| -> &'static str { if x.contains("Complete") { "C" } else if x.contains("Partial") { "P" } else { "E" } };
+        let same = self.findings.iter().filter(|g| g.family == f.family && g.stage == f.stage && g.oracle == f.oracle && g.gen == f.gen
+            && kind(&g.real) == kind(&f.real) && kind(&g.expected) == kind(&f.expected)).count();
         if same < 2 && self.findings.len() < self.max { self.findings.push(f); }
     }
     fn full(&self) -> bool { self.findings.len() >= self.max }
@@ -541,14 +543,21 @@ fn search_timing() -> Vec<String> {
     for name in ["folded-blank-lines", "folded-lines", "ignored-lines-req", "ignored-lines-resp", "ws-after-colon", "ws-after-colon-fold", "ws-before-first",
                  "long-value", "long-value-trailing-ws", "long-name", "long-target", "many-headers", "many-headers-spaces", "empty-lines", "reason",
                  "status-spaces", "request-spaces", "headers-only", "chunk-ext"] {
-        let mut worst = f64::MAX;
+        // each family as is (buffer ends inside the run) and followed by a closing suffix (the run is followed by real content)
+        let mut worst = 0.0f64;
         let mut t_big = 0.0;
-        for _ in 0..3 {
-            let (k, c, small) = family(name, 4096);
-            let (_, _, big) = family(name, 65536);
-            let ts = time_parse(k, c, &small).max(1e-7);
-            let tb = time_parse(k, c, &big);
-            if tb / ts < worst { worst = tb / ts; t_big = tb; }
+        for suffix in [&b""[..], b"v\r\n\r\n"] {
+            let mut best = f64::MAX;
+            let mut tb_best = 0.0;
+            for _ in 0..3 {
+                let (k, c, mut small) = family(name, 4096);
+                let (_, _, mut big) = family(name, 65536);
+                small.extend_from_slice(suffix); big.extend_from_slice(suffix);
+                let ts = time_parse(k, c, &small).max(1e-7);
+                let tb = time_parse(k, c, &big);
+                if tb / ts < best { best = tb / ts; tb_best = tb; }
+            }
+            if best > worst { worst = best; t_big = tb_best; }
         }
         eprintln!("timing family={} ratio={:.1} t64k={:.6}s", name, worst, t_big);
         if worst > 80.0 && t_big > 0.005 {
